@@ -170,11 +170,16 @@ extern "C" void c11_decision(void)
 }
 
 // ================================================================== K2
-// Conservative reference reader of a Cache-Control field value (RFC 9111 5.2: #cache-directive, names case-insensitive):
-// the value is split at commas outside double quotes, each item is trimmed of SP/HTAB, the directive name is the text before
-// the first '='. It only ever answers "directive D is certainly present", which is all the forbidden rows need.
+// Reference reader of a Cache-Control field value (RFC 9111 5.2: #cache-directive, names case-insensitive): the value is split
+// at commas outside double quotes, each item is trimmed, the directive name is the text before the first '='.
+// Both uses are one-directional, so the reader errs on the safe side of each:
+//  strict (directives that FORBID storing: no-store, private): only SP/HTAB are trimmed (RFC 9110 OWS) -- "certainly present";
+//  liberal (directives that ALLOW storing a reply to a request with credentials: public, must-revalidate, s-maxage): every C
+//   whitespace byte (SP HT LF VT FF CR) around an item is ignored, as lenient recipients such as Squid's list splitter do --
+//   "possibly present"; the row "credentials and none of them" is claimed only when none is even possibly present.
 static uint8_t low(uint8_t c) { return (c >= 'A' && c <= 'Z') ? c + 32 : c; }
-static bool refHas(const uint8_t *s, const unsigned n, const char *name)
+static bool refWs(const uint8_t c, const bool liberal) { return c == ' ' || c == '\t' || (liberal && c >= 10 && c <= 13); }
+static bool refHas(const uint8_t *s, const unsigned n, const char *name, const bool liberal = false)
 {
     unsigned i = 0;
     while (i <= n) {
@@ -187,8 +192,8 @@ static bool refHas(const uint8_t *s, const unsigned n, const char *name)
         }
         unsigned e = i;
         ++i; // past the comma
-        while (b < e && (s[b] == ' ' || s[b] == '\t')) ++b;
-        while (e > b && (s[e - 1] == ' ' || s[e - 1] == '\t')) --e;
+        while (b < e && refWs(s[b], liberal)) ++b;
+        while (e > b && refWs(s[e - 1], liberal)) --e;
         unsigned q = b;
         while (q < e && s[q] != '=') ++q;
         unsigned k = 0;
@@ -265,7 +270,7 @@ static void headers(const Field *repF, const unsigned nRep, const Field *reqF, c
     const bool stored = madePublic || madeNegative;
     const bool repNoStore = refHas(repText, repLen, "no-store"), repPrivate = refHas(repText, repLen, "private");
     const bool reqNoStore = refHas(reqText, reqLen, "no-store");
-    const bool sharedOk = refHas(repText, repLen, "public") || refHas(repText, repLen, "must-revalidate") || refHas(repText, repLen, "s-maxage");
+    const bool sharedOk = refHas(repText, repLen, "public", true) || refHas(repText, repLen, "must-revalidate", true) || refHas(repText, repLen, "s-maxage", true);
     const bool revalidateAlways = (w.entry->flags >> ENTRY_REVALIDATE_ALWAYS) & 1;
     vf_assert(madePublic + madeNegative + madePrivate == 1, "exactly one publication decision is acted upon");
     if (repNoStore) { vf_assert(!stored && madePrivate, "a reply with Cache-Control: no-store is never given a public key"); vf_reach("reply-no-store"); }
